@@ -245,6 +245,7 @@ pub fn explore<S: Scenario>(scn: &S, cfg: &ExploreCfg) -> Report {
     let total_states = AtomicU64::new(0);
 
     let mut setup_failures: Vec<String> = vec![];
+    let harness_panics: Mutex<Vec<String>> = Mutex::new(vec![]);
     for &root in &root_ids {
         if stop.load(Ordering::SeqCst) {
             break;
@@ -337,8 +338,18 @@ pub fn explore<S: Scenario>(scn: &S, cfg: &ExploreCfg) -> Report {
                                 w.restore(&node.snap);
                                 let mut g = node.ghost.clone();
                                 let mut cx = Cx::default();
-                                scn.step(&mut w, &handles, &mut g, a, &mut cx);
-                                scn.invariants(&mut w, &handles, &g, &mut cx);
+                                // a panic of the harness itself (not of a contract: those are caught inside World::exec) is a
+                                // machinery error with the offending action, never a verdict and never a process abort
+                                let stepped = std::panic::catch_unwind(std::panic::AssertUnwindSafe(|| {
+                                    scn.step(&mut w, &handles, &mut g, a, &mut cx);
+                                    scn.invariants(&mut w, &handles, &g, &mut cx);
+                                }));
+                                if let Err(p) = stepped {
+                                    let msg = p.downcast_ref::<String>().cloned().or_else(|| p.downcast_ref::<&str>().map(|s| s.to_string())).unwrap_or_default();
+                                    harness_panics.lock().unwrap().push(format!("{} at action {}", msg, serde_json::to_string(a).unwrap()));
+                                    stop.store(true, Ordering::SeqCst);
+                                    break;
+                                }
                                 transitions.fetch_add(1, Ordering::Relaxed);
                                 merge_counters(&mut local_counters, &cx.counters);
                                 // violations matching a known finding are counted and do not prune
@@ -441,6 +452,12 @@ pub fn explore<S: Scenario>(scn: &S, cfg: &ExploreCfg) -> Report {
             }
         }
         let _ = interner.len();
+    }
+    {
+        let hp = harness_panics.lock().unwrap();
+        if !hp.is_empty() && rep.machinery_error.is_none() {
+            rep.machinery_error = Some(format!("the harness panicked in {} of {}: {}", hp.len(), scn.name(), hp.iter().take(2).cloned().collect::<Vec<_>>().join(" | ")));
+        }
     }
     if !setup_failures.is_empty() && rep.machinery_error.is_none() {
         rep.machinery_error = Some(format!("set-up of {} root(s) failed: {}", setup_failures.len(), setup_failures.join(" | ")));
